@@ -231,7 +231,16 @@ class VGenericEngine:
                 return res[0]
         else:
             def newfunc(*args):
-                args = args[:i] + (backend.newp(BType, args[i]),) + args[i+1:]
+                # if there are too few arguments, oldfunc() raises TypeError
+                if i < len(args):
+                    if args[i] is None:
+                        # not newp(BType, None), which means "no initializer"
+                        raise TypeError(
+                            "initializer for ctype '%s' must be a list or "
+                            "tuple or dict or struct-cdata, not NoneType"
+                            % (tp.totype._get_c_name(),))
+                    args = (args[:i] + (backend.newp(BType, args[i]),) +
+                            args[i+1:])
                 return oldfunc(*args)
         newfunc._cffi_base_type = base_tp
         return newfunc
